@@ -40,6 +40,16 @@ PROPS = {
         rule='all 256 code bytes through set_method/set_status and the getter tables; every named content format (set, set twice, set after raw add) and raw bytes of length 0..3; observe flag set/get and raw Observe bytes of length 0..6; every path string over {/, a, ., e-acute} up to length 5 (6 thorough) with prior Uri-Path state varied, random paths, non-UTF-8 raw segments; random messages through both coap-message trait versions (view and set_from_message). Every case is non-trivial; distinct = distinct protocol lines.',
         explanation='accessor laws proved over the model; getMethodTable/getStatusTable regenerated from the source',
     ),
+    'C14': dict(
+        lean='CoapLite.Props.C14', domains=['OBS'], line_filter=r'OBS (run|trace) ',
+        rule='breadth-first: every one of 31 operations (2 endpoints x 2 tokens x 2 paths x 2 mids x CON/NON x limits 0,1,2) out of every distinct full registry state reachable within depth 5 (7 thorough), full-state comparison incl. private counters through the hook; 250 (1500) random histories of length 200 over 8 endpoints, 6 paths, tokens 0-8 B, limits up to 255; directed 600-round histories. Every line is a distinct non-trivial history.',
+        explanation='registry invariants by induction over arbitrary operation lists; per-operation specs for every Inv state',
+    ),
+    'C15': dict(
+        lean='CoapLite.Props.C15', domains=['OBS'],
+        rule='same histories as C14 plus directed 600-round histories at limits 0,1,10,254,255 (CON every round / every 2nd round, one acknowledgement) and the notification builder over token 0-9 B x sequence numbers across the 1/2/3/4-byte boundaries x CON/NON + 2000 random.',
+        explanation='sequence/counter accounting per Inv state; counter bound for all histories with u8 limits; notification builder',
+    ),
     'C13': dict(
         lean='CoapLite.Props.C13', domains=['BV'],
         rule='exhaustive num x more x szx for encode/decode; all byte strings of length <= 2 and boundary-directed 3-byte strings for decode; construction over boundary block numbers x every size 0..8200 and all powers of two; non-trivial = reaches past the first guard (valid size/num, length <= 3)',
